@@ -2736,7 +2736,11 @@ class SequenceAndSetBase(base.ConstructedAsn1Type):
     def prettyPrintType(self, scope=0):
         scope += 1
         representation = '%s -> %s {\n' % (self.tagSet, self.__class__.__name__)
-        for idx, componentType in enumerate(self.componentType.values() or self._componentValues):
+        componentTypes = self.componentType.values()
+        if not componentTypes and self._componentValues is not noValue:
+            componentTypes = self._componentValues
+
+        for idx, componentType in enumerate(componentTypes):
             representation += ' ' * scope
             if self.componentType:
                 representation += '"%s"' % self.componentType.getNameByPosition(idx)
